@@ -621,11 +621,14 @@ class ArcBasedRoutingProblem(RoutingProblem):
                 visited[arc[2]] += 1
                 assert self.check_node_time_compat(arc[2], arc[3]), "Node time window not satisfied"
                 node_found = False
-                for i,a in enumerate(tuples_ordered):
-                    if node_to_find == (a[0], a[1]):
-                        arc = tuples_ordered.pop(i)
-                        node_found = True
-                        break
+                # a route ends when it is back at the depot (another vehicle
+                # may leave the depot at that same time)
+                if arc[2] != 0:
+                    for i,a in enumerate(tuples_ordered):
+                        if node_to_find == (a[0], a[1]):
+                            arc = tuples_ordered.pop(i)
+                            node_found = True
+                            break
                 if not node_found:
                     routes[-1].append(node_to_find)
                     route_finished = True
